@@ -85,14 +85,11 @@ func (c *WhipClient) PushConn(g *group.Group, id string, conn conn.Up, tracks []
 }
 
 func (c *WhipClient) RequestConns(target group.Client, g *group.Group, id string) error {
-	if g != c.group {
-		return nil
-	}
-
 	c.mu.Lock()
+	cg := c.group
 	up := c.connection
 	c.mu.Unlock()
-	if up == nil {
+	if g != cg || up == nil {
 		return nil
 	}
 	tracks := up.getTracks()
